@@ -44,7 +44,8 @@ class SanitizeString:
 
 
 # ------------------------------------------------------------------------------------------ text
-def text_block(v):
+@opaque
+def text_block(v: ViolationS) -> SeqOf(Str):
     """One block per violation: location line (path, :line when non-zero, :column when non-zero), the
     `[SEVERITY] rule: message` line, and an empty line."""
     return [f"  {sanitize(v.file_path)}" + (f":{v.line}" if v.line != 0 else "") + (f":{v.column}" if v.column != 0 else ""),
@@ -54,6 +55,9 @@ def text_block(v):
 
 @contract(CU + "_print_violation", props=["C06"], types=dict(v=ViolationS), modifies=["stdout"])
 class PrintViolation:
+    def reveals(v):
+        return reveal(text_block, v)
+
     def ensures_block(v, stdout, old):
         return stdout == old.stdout + text_block(v)
 
@@ -138,13 +142,14 @@ class FormatterInit:
 
 
 def sarif_location(v):
-    """SARIF lines and columns are 1-based; Violation.line is 1-based, Violation.column 0-based (src/core/types.py)."""
-    return {"physicalLocation": {"artifactLocation": {"uri": v.file_path},
+    """SARIF lines and columns are 1-based; Violation.line is 1-based, Violation.column 0-based (src/core/types.py).
+    The file is shown as in the other renderings (through _sanitize_string)."""
+    return {"physicalLocation": {"artifactLocation": {"uri": sanitize(v.file_path)},
                                  "region": {"startLine": v.line, "startColumn": v.column + 1}}}
 
 
 def sarif_result(v):
-    return {"ruleId": v.rule_id, "level": "error", "message": {"text": v.message}, "locations": [sarif_location(v)]}
+    return {"ruleId": v.rule_id, "level": "error", "message": {"text": sanitize(v.message)}, "locations": [sarif_location(v)]}
 
 
 @contract(SF + "SarifFormatter._create_location", props=["C06"], types=dict(self=FormatterT, violation=ViolationS))
@@ -369,11 +374,8 @@ class FormatViolations:
 
 # ------------------------------------------------------------------------------------------ same violations in all three
 def shown(v):
-    """What a rendering must show of a violation (property text): rule id, file, line, column, message."""
-    return (v.rule_id, v.file_path, v.line, v.column, v.message)
-
-
-def shown_sanitized(v):
+    """What every rendering shows of a violation (property text): rule id, file, line, column, message -- file and message
+    as printable text (surrogate-escaped bytes replaced by _sanitize_string, identically in all three renderings)."""
     return (v.rule_id, sanitize(v.file_path), v.line, v.column, sanitize(v.message))
 
 
@@ -385,12 +387,6 @@ def sarif_shows(r):
     loc = r["locations"][0]["physicalLocation"]
     return (r["ruleId"], loc["artifactLocation"]["uri"], loc["region"]["startLine"], loc["region"]["startColumn"] - 1,
             r["message"]["text"])
-
-
-def sarif_shows_sanitized(r):
-    loc = r["locations"][0]["physicalLocation"]
-    return (r["ruleId"], sanitize(loc["artifactLocation"]["uri"]), loc["region"]["startLine"],
-            loc["region"]["startColumn"] - 1, sanitize(r["message"]["text"]))
 
 
 @lemma(props=["C06"], types=dict(vs=Violations, self=FormatterT), name="sarif-results-show-the-violations")
@@ -405,12 +401,12 @@ def sarif_image(vs, self):
 
 @lemma(props=["C06"], types=dict(vs=Violations), name="json-entries-show-the-violations")
 def json_image(vs):
-    """The JSON entries are the image of the violation list (file and message pass through _sanitize_string)."""
+    """The JSON entries are the image of the violation list: same length, same order, every shown field equal."""
     es = json_doc(vs)["violations"]
     if len(vs) == 0:
-        return [json_shows(e) for e in es] == [shown_sanitized(v) for v in vs]
+        return [json_shows(e) for e in es] == [shown(v) for v in vs]
     ih(json_image, vs[1:])
-    return [json_shows(e) for e in es] == [shown_sanitized(v) for v in vs]
+    return [json_shows(e) for e in es] == [shown(v) for v in vs]
 
 
 @lemma(props=["C06"], types=dict(vs=Violations), name="text-one-block-per-violation")
@@ -419,6 +415,7 @@ def text_image(vs):
     concatenation of the blocks in list order)."""
     if len(vs) == 0:
         return len(text_blocks(vs)) == 0
+    reveal(text_block, vs[0])
     ih(text_image, vs[1:])
     return len(text_blocks(vs)) == 3 * len(vs)
 
@@ -426,17 +423,9 @@ def text_image(vs):
 @lemma(props=["C06"], types=dict(self=FormatterT, v=ViolationS), name="sarif-and-json-show-the-same-violation")
 def sarif_same_as_json(self, v):
     """PROPERTY-LEVEL: the SARIF result and the JSON entry of one violation show the same rule id, file, line, column
-    and message. Expected to FAIL (known finding C06-sarif-unsanitized): JSON and text pass file and message through
-    _sanitize_string, SARIF does not, so they differ for surrogate-escaped paths."""
+    and message (was known finding C06-sarif-unsanitized; repaired: SarifFormatter now sanitises uri and message text)."""
     r = call(SF + "SarifFormatter._create_result", self, v)
-    return sarif_shows(r) == json_shows(json_entry(v))
-
-
-@lemma(props=["C06"], types=dict(self=FormatterT, v=ViolationS), name="sarif-and-json-show-the-same-violation-modulo-sanitize")
-def sarif_same_as_json_adjusted(self, v):
-    """Finding-adjusted: equal once SARIF's uri and message text are sanitised the way JSON and text are."""
-    r = call(SF + "SarifFormatter._create_result", self, v)
-    return sarif_shows_sanitized(r) == json_shows(json_entry(v))
+    return sarif_shows(r) == json_shows(json_entry(v)) and sarif_shows(r) == shown(v)
 
 
 @lemma(props=["C06"], types=dict(self=FormatterT, v=ViolationS), name="sarif-region-is-one-based")
